@@ -891,6 +891,7 @@ func runC12(c *Ctx, pr *PropertyRun) {
 	c01Dispatch(c, pr, "C12")
 	redirectCodesRule(c, pr, "C12")
 	clientStateRule(c, pr, "C12")
+	discoveryKeepsAllRule(c, pr, "C12")
 	ops := NewRule("C12", "C12.level-ops", "level -> backend operation (or refusal) for every adapter method, with the request path unchanged (E2)")
 	ops.Exhaustive = true
 	pr.Rules = append(pr.Rules, ops)
@@ -1412,4 +1413,94 @@ func errSwallowed(call *ssa.Call) bool {
 		}
 	}
 	return !used
+}
+
+// discoveryKeepsAllRule: the collections a backend exposes reach the caller
+// whatever their paths are ("under any mount prefix", and wherever the backend
+// places them). In the functions that turn a home-set listing into
+// []Calendar / []AddressBook no branch is decided by the response's path:
+// the resource type alone says what is a calendar or an address book.
+func discoveryKeepsAllRule(c *Ctx, pr *PropertyRun, prop string) {
+	p := c.P
+	r := NewRule(prop, prop+".discovery-keeps-all", "in the client functions returning []Calendar / []AddressBook no branch depends on the path of a listed response (E4 backward slice)")
+	pr.Rules = append(pr.Rules, r)
+	pathFn := p.MustFunc(r, pkgInternal, "(*Response).Path")
+	if pathFn == nil {
+		return
+	}
+	for _, fn := range p.ModFns {
+		if !inLib(fn) || len(fn.Blocks) == 0 || fn.Parent() != nil {
+			continue
+		}
+		res := fn.Signature.Results()
+		lists := false
+		for i := 0; i < res.Len(); i++ {
+			if sl, ok := res.At(i).Type().Underlying().(*types.Slice); ok {
+				if n := namedOf(sl.Elem()); n != nil && inModuleType(n) && (n.Obj().Name() == "Calendar" || n.Obj().Name() == "AddressBook") {
+					lists = true
+				}
+			}
+		}
+		if !lists {
+			continue
+		}
+		// the paths of the listed responses
+		var paths []ssa.Value
+		for _, f := range withClosures(fn) {
+			eachCall(f, func(site ssa.CallInstruction) {
+				call, ok := site.(*ssa.Call)
+				if !ok || call.Common().StaticCallee() != pathFn {
+					return
+				}
+				for _, ref := range refsOf(call) {
+					if ex, ok := ref.(*ssa.Extract); ok && ex.Index == 0 {
+						paths = append(paths, ex)
+					}
+				}
+			})
+		}
+		if len(paths) == 0 {
+			continue
+		}
+		r.Role("listing-function")
+		var dep func(v ssa.Value, depth int, seen map[ssa.Value]bool) bool
+		dep = func(v ssa.Value, depth int, seen map[ssa.Value]bool) bool {
+			if v == nil || depth > 6 || seen[v] {
+				return false
+			}
+			seen[v] = true
+			for _, pv := range paths {
+				if v == pv {
+					return true
+				}
+			}
+			in, ok := v.(ssa.Instruction)
+			if !ok {
+				return false
+			}
+			if _, isPhi := v.(*ssa.Phi); isPhi {
+				return false
+			}
+			for _, op := range in.Operands(nil) {
+				if *op != nil && dep(*op, depth+1, seen) {
+					return true
+				}
+			}
+			return false
+		}
+		for _, f := range withClosures(fn) {
+			eachInstr(f, func(_ *ssa.BasicBlock, in ssa.Instruction) {
+				iff, ok := in.(*ssa.If)
+				if !ok {
+					return
+				}
+				bad := dep(iff.Cond, 0, map[ssa.Value]bool{})
+				r.Ob(!bad)
+				if bad {
+					r.Violation("path-decides|"+fnKey(fn), p.instrPos(iff), fmt.Sprintf("%s decides a branch by the path of a listed response: a calendar or address book the backend reports outside the place this test expects (another collection depth's sibling, a shared collection, a different spelling of the prefix) is dropped from discovery although its resource type says what it is", fnKey(fn)), nil)
+				}
+			})
+		}
+	}
+	r.RequireRole("listing-function")
 }
